@@ -256,7 +256,14 @@ def _run_scenarios(ctx):
         evaluate_files(ctx, fb, wd)
         db = p6g.gen_batch_dirs(ctx.rng, ctx.scale(4, 120))
         evaluate_dirs(ctx, db, wd)
-        ctx.extra["p6g_batch"] = {"file_scenarios": len(fb), "dir_scenarios": len(db)}
+        # field names special to formatting layers ({0}, %s, backslash …) in .vtu files: file mode, and mesh files inside trees
+        with p6g.fmt_names():
+            ff = p6g.gen_fmt_file_scenarios(ctx.rng, ctx.scale(30, 600))
+            fd = [p6g.gen_mesh_dir(ctx.rng, ctx.rng.randint(1, 3)) for _ in range(ctx.scale(16, 400))]
+        evaluate_files(ctx, ff, wd)
+        with p6g.mesh_dirs():
+            evaluate_dirs(ctx, fd, wd)
+        ctx.extra["p6g_batch"] = {"file_scenarios": len(fb) + len(ff), "dir_scenarios": len(db) + len(fd)}
         ctx.extra["f5_candidates"] = sum(1 for v in ctx.spec_viol if v.get("class") == "F5")
         # keep one small representative per class first
         ctx.spec_viol.sort(key=lambda v: (v.get("class") is not None, len(str(v["case"]))))
@@ -266,7 +273,7 @@ def _run_scenarios(ctx):
 
 def _check_case(ctx, case):
     """-> (violated clauses, impl observable, class)"""
-    with jp.strict(extend_names=False):
+    with jp.strict(extend_names=False), p6g.mesh_dirs():
         return _check_case_strict(ctx, case)
 
 
